@@ -98,6 +98,12 @@ func concretise(sh Shape, from string, rng *rand.Rand) (hdr []byte, body []byte,
 				h.WriteString(strings.Repeat("x", 900) + "\r\n ")
 			}
 			h.WriteString(tag + "\r\n")
+		case "huge":
+			// more than a mebibyte of unsigned fields in front of the signed ones
+			for k := 0; k < 1100; k++ {
+				fmt.Fprintf(&h, "X-Pad-%d: %s%s\r\n", k, tag, strings.Repeat("p", 950))
+			}
+			h.WriteString(name + ": after the padding " + tag + "\r\n")
 		case "mixedcase":
 			h.WriteString(mixCase(name) + ":  Mixed   Case\t" + tag + "\r\n")
 		default:
